@@ -463,13 +463,17 @@ theorem dynamic_cache_follows_level_color (prep : Str → List Tok) (ops : List 
       exact hm (fmt, a) r0 hr0
     · injection hlog with hlog; injection hlog with _ h2; injection h2 with h2; exact h2.symm
 
-/-- the code keys that cache as the model does: on the level's ANSI prefix (`self._levels_ansi_codes[level_id]`),
-and the memoised function colourises with exactly that argument (regenerated from `Handler.emit`/`__init__`) -/
+/-- the code keys that cache as the model does: on the format string the format function returned and the level's
+ANSI prefix (`self._levels_ansi_codes[level_id]`), and the memoised function colourises the prepared format with
+exactly that second argument (regenerated from class `Handler`, modulo renaming of locals/parameters, local
+aliases and the place where `memoize(...)` is called) -/
 theorem dynamic_cache_keyed_on_ansi :
-    (∀ k ∈ GenEmit.dynCacheKeys, k = ("dynamic_format".toList, "self._levels_ansi_codes[level_id]".toList)) ∧
+    (∀ k ∈ GenEmit.dynCacheKeys, k = ("self._formatter(record)".toList, "self._levels_ansi_codes[level_id]".toList)) ∧
     GenEmit.dynCacheKeys ≠ [] ∧
     GenEmit.dynPrepParams = ["format_".toList, "ansi_level".toList] ∧
-    GenEmit.dynPrepReturn = "(colored, colored.colorize(ansi_level))".toList := by decide +kernel
+    GenEmit.dynPrepReturn =
+      "(Colorizer.prepare_format(format_), Colorizer.prepare_format(format_).colorize(ansi_level))".toList := by
+  decide +kernel
 
 example : (do
     let d ← dynRun (fun _ => [.level, .text "x".toList]) {}
